@@ -17,9 +17,8 @@ if the response is complete: redirect or append an entry).
 
 The request target on the wire is `targetOf path qargs`; a followed redirect is re-sent to the Location's path and the
 Location's query arguments ONLY (the previous arguments are dropped), with the same method and an empty body.
-Responses to HEAD and with status 1xx / 204 / 304 are bodiless whatever Content-Length they carry (`bodiless`);
-kept defect C19-K2: such a response announcing `Transfer-Encoding: chunked` is waited for forever.
-Not modelled (never generated): a redirected HEAD (the hop's response is parsed as if the method were GET).
+Responses to HEAD (also to the hops of a redirected HEAD) and with status 1xx / 204 / 304 are bodiless whatever
+Content-Length / Transfer-Encoding they carry (`bodiless`; tree with the two `fix:` commits 3095720 and 041b28b).
 Known finding kept in the model (C19-K1): a response cut short by the server closing
 (`framing = 3`) is never completed — `outcome = stuck`, `waited` stays true.
 The https→http refusal and a 3xx response without `Location` (tree after HttpParse's fix of F48/F49): `redirect()` raises,
@@ -187,15 +186,8 @@ def serviceResponse (servers : List Server) (arrived : Bool) (s : St) : St :=
   | some rp =>
     if !arrived then s
     else if bodiless s.cur.method rp.status then
-      -- the response ends at the blank line; Content-Length is ignored — but `parseBody` looks at `.chunked` first, so a
-      -- bodiless response that announces chunked coding is waited for forever (C19-K2)
-      -- — unless the server closes, which ends the wait with PrematureClosure (errored entry)
-      if rp.framing == 1 then
-        if rp.close then
-          if isRedirect rp.status then handle servers s { rp with body := [] }
-          else finish { s with inflight := s.inflight - 1, pending := none, alive := false } none [] true
-        else { s with outcome := .stuck }
-      else handle servers s { rp with body := [] }
+      -- the response ends at the blank line: Content-Length and Transfer-Encoding are ignored, no body byte is read
+      handle servers s { rp with body := [] }
     else if rp.framing == 3 then
       -- server closed before the declared length was delivered: with nothing left unparsed the parser raises
       -- PrematureClosure (errored entry); with partial body bytes left it waits forever (C19-K1)
